@@ -5,6 +5,8 @@ use vstd::std_specs::ops::*;
 use vstd::arithmetic::div_mod::*;
 verus! {
 //@ include prelude/std.rs
+//@ include prelude/error.rs
+//@ include prelude/runtime.rs
 //@ include prelude/value.rs
 //@ include prelude/float.rs
 
